@@ -103,3 +103,24 @@ func (h *FakeHost) ServeOnce(from peer.ID, raddr ma.Multiaddr, proto protocol.ID
 }
 
 var _ = bytes.Equal
+
+// RemoteReadFrame blocks until the local side has written one complete framed
+// message and returns its body; ok is false once the stream is reset or the
+// local side closed it without a complete frame pending.
+func (s *FakeStream) RemoteReadFrame() (body []byte, ok bool) {
+	for {
+		s.mu.Lock()
+		if l, n := binary.Uvarint(s.out); n > 0 && uint64(len(s.out)-n) >= l {
+			body = append([]byte(nil), s.out[n:n+int(l)]...)
+			s.out = s.out[n+int(l):]
+			s.mu.Unlock()
+			return body, true
+		}
+		if s.reset || s.localClosed {
+			s.mu.Unlock()
+			return nil, false
+		}
+		s.mu.Unlock()
+		<-s.wnotify
+	}
+}
